@@ -13,6 +13,12 @@
   C06 reduces to: (1) the cross-module call resolves to the definition `(M, k)` the local call would
   resolve to, and (2) the call record has the same arguments.
 
+  Also modelled: the precondition "configured to be followed" — `Blacklist.isInImportBlacklist` over a
+  regex fragment (`RattrModel.Blacklist`), which computes `World.ignored` — and what happens AFTER a
+  call has been followed into a module: `ResolveLocal.resolveTargetAndIr` (`__resolve_target_and_ir`,
+  local calls to the module's own functions / classes in a multi-file environment, where symbol
+  equality ignores the defining file).
+
   The full statement (`C06_full`) is NOT a theorem of the pinned code (`C06_full_false`).  Proved for
   all names and all module tables (under explicit well-formedness hypotheses), one theorem per import
   form that works: `from M import f`, `import m` + `m.f()`, `import M as n` + `n.f()`, `from P import
@@ -25,11 +31,13 @@ import RattrModel.Resolve
 import RattrModel.Spec.ImportEquiv
 import RattrModel.Generated.C06
 import RattrProofs.Lemmas.C06
+import RattrProofs.Lemmas.C06Blacklist
+import RattrProofs.Lemmas.C06Local
 import RattrModel.Pipeline2
 import RattrProofs.Lemmas.Pipeline2
 
 namespace Rattr.C06
-open Rattr Rattr.Strs Rattr.Resolve Rattr.Spec.ImportEquiv
+open Rattr Rattr.Strs Rattr.Resolve Rattr.Spec.ImportEquiv Rattr.Blacklist Rattr.ResolveLocal
 
 /-! ### Tie A: the import-symbol table and the shape of `resolve_import` are what the source says now -/
 
@@ -426,6 +434,474 @@ theorem C06_call_record_function (existing : List Str) (y : ISym) (a : Option St
     callRecordArgs (some (importEntry existing y)) a args = expectedArgs (.obj m k false ms) a args := by
   simp [callRecordArgs, importEntry, expectedArgs]
 
+/-! ### "Configured to be followed": `is_in_import_blacklist` (model: `RattrModel.Blacklist`)
+
+The precondition of C06.  One helper decides for `make_import_symbol`, the import BFS and
+`resolve_import` alike whether a module is excluded: iff one of the configured regular expressions
+matches the module's FULL name (or the full path of one of its files).  `World.ignored` — data in the
+theorems above — is computed by it. -/
+
+/-- Tie A: the body of `is_in_import_blacklist` (statement by statement), how the pattern set is put
+together and compiled, and the rung of `resolve_import` that consults it are what the model was
+written from.  In particular the `re.Pattern` method is `fullmatch`. -/
+theorem tieA_blacklist_shape :
+    Generated.C06.blacklistBody =
+      ["config = Config()",
+       "if not name:\n    return True",
+       "if is_in_stdlib(name):\n    return False",
+       "origins = [__safe_origin(module) for module in derive_module_names_right(name)]",
+       "origins.append(name)",
+       "return any((re_pattern.fullmatch(origin) for origin in origins for re_pattern in config.re_blacklist_patterns if origin is not None))"]
+    ∧ Generated.C06.blacklistDecorators = ["cache"]
+    ∧ Generated.C06.blacklistMatchMethods = ["fullmatch"]
+    ∧ Generated.C06.blacklistPatternUnion =
+        "return self.arguments.excluded_imports | self.MODULE_BLACKLIST_PATTERNS | self.PLUGINS_BLACKLIST_PATTERNS"
+    ∧ Generated.C06.blacklistPatternCompile = "return tuple((_cached_re_compile(p) for p in self.blacklist_patterns))"
+    ∧ Generated.C06.blacklistReCompile = "return re.compile(pattern)"
+    ∧ Generated.C06.resolveImportBlacklistRung = ["if is_in_import_blacklist(target.module_name):\n    return None"] :=
+  ⟨rfl, rfl, rfl, rfl, rfl, rfl, rfl⟩
+
+/-- the perennial patterns, as the model's regex fragment reads them -/
+def builtinPatterns : List Pattern :=
+  Generated.C06.builtinBlacklistPatterns.filterMap fun src => parse src.toList
+
+private def s (x : String) : Str := x.toList
+
+/-- Tie A: `Config.MODULE_BLACKLIST_PATTERNS` is inside the modelled fragment and reads as: `package`,
+an optional `s`, `.rattr` [then `.` and anything]; `rattr` [then `.` and anything]. -/
+theorem tieA_builtin_patterns :
+    Generated.C06.builtinBlacklistPatterns.map (fun src => (parse src.toList).isSome) = [true, true, true, true]
+    ∧ builtinPatterns =
+      [lits (s "package") ++ ⟨.lit 's', .opt⟩ :: lits (s ".rattr"),
+       lits (s "package") ++ ⟨.lit 's', .opt⟩ :: (lits (s ".rattr.") ++ [⟨.any, .star⟩]),
+       lits (s "rattr"),
+       lits (s "rattr.") ++ [⟨.any, .star⟩]] := by
+  decide
+
+/-- literal patterns exclude by EQUALITY with the name (or with a file path), nothing else -/
+theorem C06_literal_patterns_exclude_exactly (pats : List Str) (name : Str) (f : NameFacts) :
+    isInImportBlacklist (pats.map lits) name f = true ↔
+      name = [] ∨ (f.inStdlib = false ∧ (name ∈ pats ∨ ∃ o, some o ∈ f.origins ∧ o ∈ pats)) := by
+  by_cases hne : name = []
+  · simp [isInImportBlacklist, hne]
+  · cases hs : f.inStdlib with
+    | true => simp [isInImportBlacklist, hne, hs]
+    | false =>
+      simp only [isInImportBlacklist, hne, hs, if_false, Bool.false_eq_true, false_or, true_and]
+      rw [List.any_eq_true]
+      constructor
+      · rintro ⟨o, hmem, h⟩
+        cases o with
+        | none => simp at h
+        | some x =>
+          have hx : x ∈ pats := (matchesAny_lits pats x).mp h
+          rcases List.mem_append.mp hmem with h1 | h1
+          · exact .inr ⟨x, h1, hx⟩
+          · simp only [List.mem_singleton, Option.some.injEq] at h1
+            exact .inl (h1 ▸ hx)
+      · rintro (h | ⟨o, ho, hp⟩)
+        · exact ⟨some name, by simp, (matchesAny_lits pats name).mpr h⟩
+        · exact ⟨some o, List.mem_append_left _ ho, (matchesAny_lits pats o).mpr hp⟩
+
+/-- … so a module whose name merely STARTS (or ends) like an excluded one is not excluded:
+`-F util` does not exclude `utilities`, `util_extra`, `myutil`. -/
+theorem C06_literal_near_miss_not_excluded (pats : List Str) (p pre suf : Str) (f : NameFacts)
+    (hlen : pre ++ suf ≠ [])
+    (hname : pre ++ p ++ suf ∉ pats) (horig : ∀ o, some o ∈ f.origins → o ∉ pats) :
+    isInImportBlacklist (pats.map lits) (pre ++ p ++ suf) f = false := by
+  have hne : pre ++ p ++ suf ≠ [] := by
+    intro h
+    apply hlen
+    have h1 := List.append_eq_nil_iff.mp h
+    have h2 := List.append_eq_nil_iff.mp h1.1
+    simp [h2.1, h1.2]
+  cases h : isInImportBlacklist (pats.map lits) (pre ++ p ++ suf) f with
+  | false => rfl
+  | true =>
+    rcases (C06_literal_patterns_exclude_exactly pats _ f).mp h with h1 | ⟨_, h2 | ⟨o, ho, hp⟩⟩
+    · exact absurd h1 hne
+    · exact absurd h2 hname
+    · exact absurd hp (horig o ho)
+
+/-- what the perennial patterns exclude, written independently of the matcher -/
+def under (p subject : Str) : Bool :=
+  (p ++ ['.']).isPrefixOf subject && (subject.drop (p.length + 1)).all (· != '\n')
+
+def builtinSpec (subject : Str) : Bool :=
+  subject == s "rattr" || subject == s "package.rattr" || subject == s "packages.rattr"
+    || under (s "rattr") subject || under (s "package.rattr") subject || under (s "packages.rattr") subject
+
+theorem isPrefixOf_eq_drop_nil (p t : Str) :
+    (p.isPrefixOf t && (t.drop p.length).isEmpty) = (t == p) := by
+  induction p generalizing t with
+  | nil => cases t <;> simp
+  | cons c p ih =>
+    cases t with
+    | nil => simp
+    | cons d t =>
+      simp only [List.isPrefixOf, List.length_cons, List.drop_succ_cons, Bool.and_assoc, ih t]
+      rw [BEq.comm (a := c)]
+      simp
+
+theorem isPrefixOf_append_drop (a b t : Str) :
+    ((a ++ b).isPrefixOf t) = (a.isPrefixOf t && b.isPrefixOf (t.drop a.length)) := by
+  induction a generalizing t with
+  | nil => simp
+  | cons c a ih =>
+    cases t with
+    | nil => simp
+    | cons d t => simp [List.isPrefixOf, ih t, Bool.and_assoc]
+
+/-- The perennial patterns exclude exactly: `rattr`, `package.rattr`, `packages.rattr` and every
+dotted name below one of the three — for ALL subjects. -/
+theorem C06_builtin_patterns_exact (subject : Str) : matchesAny builtinPatterns subject = builtinSpec subject := by
+  rw [tieA_builtin_patterns.2]
+  simp only [matchesAny, List.any_cons, List.any_nil, Bool.or_false]
+  have e1 : ∀ (tail : Pattern) , fullMatch (lits (s "package") ++ ⟨.lit 's', .opt⟩ :: tail) subject
+      = (fullMatch (lits (s "package") ++ tail) subject || fullMatch (lits (s "packages") ++ tail) subject) := by
+    intro tail
+    rw [fullMatch_lits_append, fullMatch_opt, Bool.and_or_distrib_left, ← fullMatch_lits_append]
+    congr 1
+    have : lits (s "packages") ++ tail = lits (s "package") ++ (⟨.lit 's', .one⟩ :: tail) := by
+      simp [lits, s]
+    rw [this, fullMatch_lits_append]
+  have e2 : ∀ (a : Str), fullMatch (lits a) subject = (subject == a) := by
+    intro a
+    have h := fullMatch_lits_append a [] subject
+    rw [List.append_nil] at h
+    rw [h, fullMatch_nil, isPrefixOf_eq_drop_nil]
+  have e3 : ∀ (a : Str), fullMatch (lits (a ++ ['.']) ++ [⟨.any, .star⟩]) subject = under a subject := by
+    intro a
+    rw [fullMatch_lits_append, fullMatch_dotstar]
+    simp [under]
+  have l1 : ∀ a b : Str, lits a ++ lits b = lits (a ++ b) := by intro a b; simp [lits]
+  have l2 : ∀ (a b : Str) (t : Pattern), lits a ++ (lits b ++ t) = lits (a ++ b) ++ t := by
+    intro a b t; simp [lits]
+  rw [e1, e1, l1, l1, l2, l2, e2, e2, e2]
+  have h1 : s "package" ++ s ".rattr." = s "package.rattr" ++ ['.'] := by decide
+  have h2 : s "packages" ++ s ".rattr." = s "packages.rattr" ++ ['.'] := by decide
+  have h3 : s "rattr." = s "rattr" ++ ['.'] := by decide
+  have h4 : s "package" ++ s ".rattr" = s "package.rattr" := by decide
+  have h5 : s "packages" ++ s ".rattr" = s "packages.rattr" := by decide
+  rw [h1, h2, h3, h4, h5, e3, e3, e3]
+  unfold builtinSpec
+  cases (subject == s "rattr") <;> cases (subject == s "package.rattr") <;> cases (subject == s "packages.rattr")
+    <;> cases under (s "rattr") subject <;> cases under (s "package.rattr") subject
+    <;> cases under (s "packages.rattr") subject <;> rfl
+
+/-- A project module with an undotted name is excluded by the perennial patterns only if it is called
+exactly `rattr`: `rattr_helpers`, `rattrkit`, `myrattr` are configured to be followed. -/
+theorem C06_builtin_patterns_dotless (name : Str) (hd : '.' ∉ name) :
+    matchesAny builtinPatterns name = (name == s "rattr") := by
+  rw [C06_builtin_patterns_exact]
+  have hu : ∀ p, under p name = false := by
+    intro p
+    unfold under
+    cases h : (p ++ ['.']).isPrefixOf name with
+    | false => rfl
+    | true => exact absurd (isPrefixOf_mem h '.' (by simp)) hd
+  have hn : ∀ a : Str, '.' ∈ a → (name == a) = false := by
+    intro a ha
+    cases h : name == a with
+    | false => rfl
+    | true => exact absurd ((beq_iff_eq.mp h) ▸ ha) hd
+  unfold builtinSpec
+  rw [hu, hu, hu, hn (s "package.rattr") (by decide), hn (s "packages.rattr") (by decide)]
+  simp
+
+/-- The code uses `fullmatch`, not `match`: names that an excluded pattern matches as a proper PREFIX
+are not excluded (kernel-evaluated on the names of the generated projects; a test). -/
+theorem C06_blacklist_is_fullmatch_test :
+    prefixMatch (lits (s "rattr")) (s "rattr_helpers") = true
+    ∧ fullMatch (lits (s "rattr")) (s "rattr_helpers") = false
+    ∧ (([s "rattr_helpers", s "rattrkit", s "myrattr", s "xrattrx", s "Rattr", s "zp1.rattr", s "packages.rattrs",
+         s "mypackages.rattr", s "packagess.rattr"].all fun n =>
+          !isInImportBlacklist builtinPatterns n { inStdlib := false, origins := [some (s "/tmp/p/" ++ n ++ s ".py")] }) = true)
+    ∧ (([s "rattr", s "rattr.x", s "package.rattr", s "packages.rattr", s "packages.rattr.a.b", s ""].all fun n =>
+          isInImportBlacklist builtinPatterns n { inStdlib := false, origins := [none] }) = true)
+    ∧ (match parse (s "pkg\\.x") with
+       | some p => fullMatch p (s "pkg.x") && !fullMatch p (s "pkg.xy") && prefixMatch p (s "pkg.xy")
+       | none => false) = true := by
+  decide
+
+/-! #### the blacklist feeds `resolve_import` -/
+
+/-- A module that no pattern matches in full (name and file paths) passes the blacklist rung. -/
+theorem C06_not_excluded_provides (w : World) (ps : List Pattern) (facts : Str → NameFacts)
+    (M q : Str) (ctx : MCtx)
+    (hw : w.ignored = ignoredOf ps facts w.existing)
+    (hne : M ≠ []) (hn : matchesAny ps M = false)
+    (ho : ∀ o, some o ∈ (facts M).origins → matchesAny ps o = false)
+    (hm : moduleNameOf w.existing q = some M) (hi : Dict.get? w.irs M = some ctx) :
+    Provides w M q ctx := by
+  refine ⟨hm, ?_, hi⟩
+  rw [hw, mem_ignoredOf]
+  rintro ⟨_, hb⟩
+  rw [isInImportBlacklist_false_of ps M (facts M) hne hn ho] at hb
+  cases hb
+
+/-- C06 under exclusion patterns: `from M import f` is followed to `M`'s definition whenever no
+configured pattern matches `M`'s full name or the full path of its files — whatever else the patterns
+match (proper prefixes, suffixes, siblings of `M`). -/
+theorem C06_from_import_unless_fully_matched (w : World) (ps : List Pattern) (facts : Str → NameFacts)
+    (root : Context) (M f : Str) (ctx : MCtx) (sy : MSym) (fuel : Nat) (hf : Ident f)
+    (hw : w.ignored = ignoredOf ps facts w.existing)
+    (hne : M ≠ []) (hn : matchesAny ps M = false)
+    (ho : ∀ o, some o ∈ (facts M).origins → matchesAny ps o = false)
+    (hroot : Context.get? root f = some (importEntry w.existing ⟨f, M ++ '.' :: f⟩))
+    (hm : moduleNameOf w.existing (M ++ '.' :: f) = some M) (hi : Dict.get? w.irs M = some ctx)
+    (hs : lookupSym ctx f = some sy) (hd : IsDef sy f) :
+    resolveCall w (fuel + 1) root f = .viaImport (.found M sy) :=
+  C06_from_import w root M f ctx sy fuel hf hroot
+    (C06_not_excluded_provides w ps facts M _ ctx hw hne hn ho hm hi) hs hd
+
+/-- … and `import M as n; n.f()` likewise. -/
+theorem C06_import_as_unless_fully_matched (w : World) (ps : List Pattern) (facts : Str → NameFacts)
+    (root : Context) (M n f : Str) (ctx : MCtx) (sy : MSym) (fuel : Nat) (hn' : Ident n) (hf : Ident f)
+    (hw : w.ignored = ignoredOf ps facts w.existing)
+    (hne : M ≠ []) (hn : matchesAny ps M = false)
+    (ho : ∀ o, some o ∈ (facts M).origins → matchesAny ps o = false)
+    (hnone : Context.get? root (n ++ '.' :: f) = none)
+    (hroot : Context.get? root n = some (importEntry w.existing ⟨n, M⟩))
+    (hex : w.existing.contains M = true)
+    (hm : moduleNameOf w.existing (M ++ '.' :: f) = some M) (hi : Dict.get? w.irs M = some ctx)
+    (hs : lookupSym ctx f = some sy) (hd : IsDef sy f) :
+    resolveCall w (fuel + 1) root (n ++ '.' :: f) = .viaImport (.found M sy) :=
+  C06_import_as w root M n f ctx sy fuel hn' hf hnone hroot hex
+    (C06_not_excluded_provides w ps facts M _ ctx hw hne hn ho hm hi) hs hd
+
+/-- The other direction (what the property does NOT promise): an existing non-stdlib module whose
+full name a pattern matches is silently not followed — `resolve_import` returns `None`. -/
+theorem C06_fully_matched_not_followed (w : World) (ps : List Pattern) (facts : Str → NameFacts)
+    (M : Str) (t : ISym) (fuel : Nat)
+    (hw : w.ignored = ignoredOf ps facts w.existing)
+    (hm : moduleNameOf w.existing t.qual = some M) (hex : M ∈ w.existing)
+    (hs : (facts M).inStdlib = false) (hn : matchesAny ps M = true) :
+    resolveImport w (fuel + 1) t = .none_ .ignored := by
+  have hmem : M ∈ w.ignored := by
+    rw [hw, mem_ignoredOf]
+    exact ⟨hex, isInImportBlacklist_true_of_name ps M (facts M) hs hn⟩
+  simp [resolveImport, hm, hmem]
+
+/-! ### Local calls inside a followed module (`__resolve_target_and_ir`, model: `RattrModel.ResolveLocal`)
+
+"Chains across several modules": once a call has been followed into module `M`, the calls written in
+`M` to `M`'s own functions and classes must resolve to `M`'s definitions — as in the single-file
+version, where they are the only ones.  Symbol equality ignores the location, so this is a statement
+about `defined_in`. -/
+
+/-- Tie A: the three functions the model was written from, statement by statement, and the fields
+that symbol equality compares (`location` is not among them; everything but `name` is the model's
+`iface` key). -/
+theorem tieA_local_resolution_shape :
+    Generated.C06.resolveTargetAndIrBody =
+      ["if isinstance(call.symbol.target, Class):\n    symbol = __resolve_real_class_target(call.symbol.target, environment=environment)\nelse:\n    symbol = call.symbol.target",
+       "if symbol is None:\n    raise ImportError",
+       "if __is_defined_in(symbol, environment.target_ir):\n    return IrTarget(symbol=symbol, ir=environment.target_ir[symbol])",
+       "filename = symbol.location.defined_in",
+       "module = derive_module_name_from_path(filename)",
+       "if module is None:\n    raise ModuleNotFoundError(f'unable to find module for {str(filename)!r}')",
+       "module_ir = environment.import_irs.get(module)",
+       "if module_ir is None:\n    raise ImportError",
+       "if symbol not in module_ir:\n    raise ImportError",
+       "return IrTarget(symbol=symbol, ir=module_ir[symbol])"]
+    ∧ Generated.C06.isDefinedInBody =
+      ["return any((symbol == other and symbol.location.defined_in == other.location.defined_in for other in file_ir))"]
+    ∧ Generated.C06.realClassTargetBody =
+      ["candidates = [symbol for ir in (environment.target_ir, *environment.import_irs.values()) for symbol in ir if isinstance(symbol, Class) and target.name == symbol.name]",
+       "for symbol in candidates:\n    if symbol.location.defined_in == target.location.defined_in:\n        return symbol",
+       "return target"]
+    ∧ Generated.C06.symbolEqFields = [("Func", ["name", "interface", "is_async"]), ("Class", ["name", "interface"])] :=
+  ⟨rfl, rfl, rfl, rfl⟩
+
+/-- Well-formedness of an environment as the file analyser builds it: the target's keys are distinct
+under `==` (they are dict keys); each key of module `m`'s IR is defined in a file whose module is
+`m`; different files have different module names. -/
+structure LocalWF (env : Env) : Prop where
+  targetDistinct : KeysDistinct env.target
+  importsOwn : ∀ m ir, Dict.get? env.imports m = some ir → ∀ k ∈ ir, Dict.get? env.moduleOf k.file = some m
+  moduleInj : ∀ f g m, Dict.get? env.moduleOf f = some m → Dict.get? env.moduleOf g = some m → f = g
+
+theorem localWF_of_b (env : Env) (h : localWFb env = true) : LocalWF env := by
+  unfold localWFb at h
+  simp only [Bool.and_eq_true, List.all_eq_true, Bool.or_eq_true, Bool.not_eq_true', decide_eq_true_eq] at h
+  obtain ⟨⟨h1, h2⟩, h3⟩ := h
+  refine ⟨?_, ?_, ?_⟩
+  · intro a ha b hb he
+    rcases h1 a ha b hb with h | h
+    · rw [he] at h; cases h
+    · exact h
+  · intro m ir hi k hk
+    exact h2 (m, ir) (dictGet_mem' _ _ _ hi) k hk
+  · intro f g m hf hg
+    exact h3 (f, m) (dictGet_mem' _ _ _ hf) (g, m) (dictGet_mem' _ _ _ hg) rfl
+
+theorem effective_file (env : Env) (t : DSym) : (effective env t).file = t.file := by
+  unfold effective; split
+  · exact realClass_file env t
+  · rfl
+
+theorem resolveSym_ok_inv (env : Env) (sy : DSym) (r : Found) (h : resolveSym env sy = .ok r) :
+    sy.eqv r.key = true ∧
+    ((r.inTarget = true ∧ r.key ∈ env.target ∧ isDefinedIn sy env.target = true) ∨
+     (r.inTarget = false ∧ Dict.get? env.moduleOf sy.file = some r.module ∧
+        ∃ ir, Dict.get? env.imports r.module = some ir ∧ r.key ∈ ir)) := by
+  unfold resolveSym at h
+  split at h
+  · next hd =>
+    split at h
+    · next k hk =>
+      injection h with h; subst h
+      obtain ⟨hm, he⟩ := lookup_some _ _ _ hk
+      exact ⟨he, .inl ⟨rfl, hm, hd⟩⟩
+    · cases h
+  · split at h
+    · cases h
+    · next m hm =>
+      split at h
+      · cases h
+      · next ir hi =>
+        split at h
+        · cases h
+        · next k hk =>
+          injection h with h; subst h
+          obtain ⟨hmem, he⟩ := lookup_some _ _ _ hk
+          exact ⟨he, .inr ⟨rfl, hm, ir, hi, hmem⟩⟩
+
+theorem resolve_ok_inv (env : Env) (t : DSym) (r : Found) (h : resolveTargetAndIr env t = .ok r) :
+    (effective env t).eqv r.key = true ∧
+    ((r.inTarget = true ∧ r.key ∈ env.target ∧ isDefinedIn (effective env t) env.target = true) ∨
+     (r.inTarget = false ∧ Dict.get? env.moduleOf (effective env t).file = some r.module ∧
+        ∃ ir, Dict.get? env.imports r.module = some ir ∧ r.key ∈ ir)) :=
+  resolveSym_ok_inv env _ r h
+
+/-- `target_ir[symbol]` cannot raise after `__is_defined_in` said yes. -/
+theorem C06_local_keyError_unreachable (env : Env) (t : DSym) :
+    resolveTargetAndIr env t ≠ .error .keyError := by
+  unfold resolveTargetAndIr resolveSym
+  split
+  · next hd =>
+    obtain ⟨o, ho, he, _⟩ := (isDefinedIn_iff _ _).mp hd
+    cases hl : lookup env.target (effective env t) with
+    | some k => simp
+    | none =>
+      unfold lookup at hl
+      have := List.find?_eq_none.mp hl o ho
+      simp [he] at this
+  · split
+    · simp
+    · split
+      · simp
+      · split <;> simp
+
+/-- MODULE-LOCAL: whatever IR a local call is resolved to, it is the IR of a definition in the file
+the callee symbol is defined in — never a same-named definition of the target or of another
+followed module. -/
+theorem C06_local_call_resolves_in_defining_file (env : Env) (hw : LocalWF env) (t : DSym) (r : Found)
+    (h : resolveTargetAndIr env t = .ok r) : r.key.file = t.file := by
+  obtain ⟨he, h1 | h2⟩ := resolve_ok_inv env t r h
+  · obtain ⟨_, hk, hd⟩ := h1
+    obtain ⟨o, ho, heo, hf⟩ := (isDefinedIn_iff _ _).mp hd
+    have : r.key.eqv o = true := eqv_trans _ _ _ (by rw [eqv_symm]; exact he) heo
+    rw [hw.targetDistinct _ hk _ ho this, ← hf, effective_file]
+  · obtain ⟨_, hm, ir, hi, hk⟩ := h2
+    have := hw.importsOwn _ ir hi _ hk
+    rw [hw.moduleInj _ _ _ this hm, effective_file]
+
+/-- … and it IS found there: a callee that is a key of its own module's IR resolves to exactly that
+key, with NO hypothesis on what the target and the other modules define (same names, same
+signatures) beyond: none of the target's keys is defined in the callee's file. -/
+theorem C06_module_local_callee_found (env : Env) (t : DSym) (m : Str) (ir : FileKeys)
+    (hnot : ∀ o ∈ env.target, o.file ≠ t.file)
+    (hm : Dict.get? env.moduleOf t.file = some m) (hi : Dict.get? env.imports m = some ir)
+    (hk : t ∈ ir) (hdist : KeysDistinct ir)
+    (hcls : ∀ o ∈ allKeys env, o.kind = .cls → o.name = t.name → o.file = t.file → o = t) :
+    resolveTargetAndIr env t = .ok { inTarget := false, module := m, key := t } := by
+  have heff : effective env t = t := by
+    unfold effective
+    split
+    · rcases realClass_cases env t with h | ⟨h1, h2, h3, h4⟩
+      · exact h
+      · exact hcls _ h1 h2 h3 h4
+    · rfl
+  have hnd : isDefinedIn t env.target = false := by
+    cases h : isDefinedIn t env.target with
+    | false => rfl
+    | true =>
+      obtain ⟨o, ho, _, hf⟩ := (isDefinedIn_iff _ _).mp h
+      exact absurd hf.symm (hnot o ho)
+  unfold resolveTargetAndIr resolveSym
+  rw [heff]
+  have e : t.eqv t = true := by simp [DSym.eqv]
+  simp [hnd, hm, hi, lookup_of_mem ir t hdist t hk e]
+
+/-- A class that has no IR entry in its own file (no `__init__`) does not borrow the initialiser of a
+same-named class of another file: the resolution fails (`ImportError` → "unable to resolve
+initialiser", nothing is inlined). -/
+theorem C06_class_without_initialiser_not_borrowed (env : Env) (hw : LocalWF env) (t : DSym)
+    (ht : t.kind = .cls)
+    (hnone : ∀ o ∈ allKeys env, o.file = t.file → o.kind = .cls → o.name ≠ t.name) :
+    ∃ e, resolveTargetAndIr env t = .error e := by
+  cases h : resolveTargetAndIr env t with
+  | error e => exact ⟨e, rfl⟩
+  | ok r =>
+    exfalso
+    have hf := C06_local_call_resolves_in_defining_file env hw t r h
+    obtain ⟨he, hh⟩ := resolve_ok_inv env t r h
+    have heff : effective env t = t := by
+      unfold effective
+      rw [if_pos ht]
+      rcases realClass_cases env t with h | ⟨h1, h2, h3, h4⟩
+      · exact h
+      · exact absurd h3 (hnone _ h1 h4 h2)
+    rw [heff, eqv_iff] at he
+    have hmem : r.key ∈ allKeys env := by
+      rcases hh with ⟨_, hk, _⟩ | ⟨_, _, ir, hi, hk⟩
+      · exact List.mem_append_left _ hk
+      · exact mem_allKeys_of_import env _ ir _ hi hk
+    exact hnone _ hmem hf (he.1 ▸ ht) he.2.1.symm
+
+
+/-! #### the dedicated same-name projects, in the model (kernel-evaluated tests + non-vacuity) -/
+
+private def ss (x : String) : Str := x.toList
+private def fn (n f : String) : DSym := { kind := .func, name := ss n, iface := ss "(x)", file := ss f }
+private def kl (n f : String) : DSym := { kind := .cls, name := ss n, iface := ss "(self, x)", file := ss f }
+
+/-- target.py: `helper`, `K`, `caller`, `own`; zsa.py: `helper`, `K`, `ga`; zsb.py: `K`, `gb`; zsc.py has a
+class `K` WITHOUT initialiser (no key) -/
+private def envSame : Env where
+  target := [fn "helper" "target.py", kl "K" "target.py", fn "caller" "target.py", fn "own" "target.py"]
+  imports := [(ss "zsb", [kl "K" "zsb.py", fn "gb" "zsb.py"]),
+              (ss "zsa", [fn "helper" "zsa.py", kl "K" "zsa.py", fn "ga" "zsa.py"]),
+              (ss "zsc", [fn "gc" "zsc.py"])]
+  moduleOf := [(ss "target.py", ss "target"), (ss "zsa.py", ss "zsa"), (ss "zsb.py", ss "zsb"), (ss "zsc.py", ss "zsc")]
+
+/-- the symbols are `==` across files, and still each call is resolved in its own file; the class of
+`zsc` that has no initialiser borrows nothing. -/
+theorem C06_same_name_rows_test :
+    (fn "helper" "zsa.py").eqv (fn "helper" "target.py") = true
+    ∧ resolveTargetAndIr envSame (fn "helper" "zsa.py") = .ok ⟨false, ss "zsa", fn "helper" "zsa.py"⟩
+    ∧ resolveTargetAndIr envSame (fn "helper" "target.py") = .ok ⟨true, [], fn "helper" "target.py"⟩
+    ∧ resolveTargetAndIr envSame (kl "K" "zsa.py") = .ok ⟨false, ss "zsa", kl "K" "zsa.py"⟩
+    ∧ resolveTargetAndIr envSame (kl "K" "zsb.py") = .ok ⟨false, ss "zsb", kl "K" "zsb.py"⟩
+    ∧ resolveTargetAndIr envSame (kl "K" "target.py") = .ok ⟨true, [], kl "K" "target.py"⟩
+    ∧ resolveTargetAndIr envSame (kl "K" "zsc.py") = .error .importError := by
+  decide
+
+theorem C06_same_name_env_wellformed_test : LocalWF envSame := localWF_of_b envSame (by decide)
+
+example : (⟨false, ss "zsa", fn "helper" "zsa.py"⟩ : Found).key.file = (fn "helper" "zsa.py").file :=
+  C06_local_call_resolves_in_defining_file envSame C06_same_name_env_wellformed_test _ _ C06_same_name_rows_test.2.1
+
+example : resolveTargetAndIr envSame (kl "K" "zsa.py") = .ok ⟨false, ss "zsa", kl "K" "zsa.py"⟩ :=
+  C06_module_local_callee_found envSame (kl "K" "zsa.py") (ss "zsa")
+    [fn "helper" "zsa.py", kl "K" "zsa.py", fn "ga" "zsa.py"] (by decide) (by decide) (by decide) (by decide)
+    (by unfold KeysDistinct; decide) (by decide)
+
+example : ∃ e, resolveTargetAndIr envSame (kl "K" "zsc.py") = .error e :=
+  C06_class_without_initialiser_not_borrowed envSame C06_same_name_env_wellformed_test _ rfl (by decide)
+
 /-! ### The full statement (false on the pinned tree) -/
 
 /-- rattr's view of a project: every module's context after `compile_root_context` +
@@ -471,7 +947,6 @@ def C06_full : Prop := ∀ p target spelled assignedTo args, C06_at p target spe
 
 /-! ### Counterexamples (one per known finding), closed by kernel evaluation -/
 
-private def s (x : String) : Str := x.toList
 
 /-- modules `m` (defines `f`, class `C` with `__init__`, class `H` with static `sm`), `p.m`, `pkg`
 (empty `__init__`), `pkg.sub` -/
@@ -640,6 +1115,40 @@ example : Acyclic wOk rkOk ∧ ∀ mn, rkOk mn < wOk.irs.length :=
 
 example : resolveImport wOk (wOk.irs.length + 1) ⟨s "f", s "pkg.f"⟩ = .found (s "pkg.y") (.cls (s "f") true) := by
   decide
+
+
+/-- exclusion patterns: the perennial ones plus `-F util`; modules `rattr_helpers`, `util`, `utilities` -/
+private def psEx : List Pattern := builtinPatterns ++ [lits (s "util")]
+private def factsEx (n : Str) : NameFacts := { inStdlib := false, origins := [some (s "/tmp/p/" ++ n ++ s ".py")] }
+private def wEx : World where
+  existing := [s "rattr_helpers", s "util", s "utilities"]
+  ignored := ignoredOf psEx factsEx [s "rattr_helpers", s "util", s "utilities"]
+  irs := [(s "rattr_helpers", [.func (s "f") true]), (s "utilities", [.func (s "f") true])]
+
+/-- only `util` is excluded … -/
+example : wEx.ignored = [s "util"] := by decide
+
+/-- … `rattr_helpers` (perennial `rattr` is a proper prefix) and `utilities` (`util` is) are followed -/
+example : resolveCall wEx 1 (rootOf wEx.existing [⟨s "f", s "rattr_helpers.f"⟩]) (s "f")
+    = .viaImport (.found (s "rattr_helpers") (.func (s "f") true)) :=
+  C06_from_import_unless_fully_matched wEx psEx factsEx _ (s "rattr_helpers") (s "f") [.func (s "f") true] _ 0
+    (by decide) rfl (by decide) (by decide)
+    (by intro o h; simp only [factsEx, List.mem_singleton, Option.some.injEq] at h; subst h; decide)
+    (by decide) (by decide) (by decide) (by decide) (.inl rfl)
+
+example : resolveCall wEx 1 (rootOf wEx.existing [⟨s "u", s "utilities"⟩]) (s "u.f")
+    = .viaImport (.found (s "utilities") (.func (s "f") true)) :=
+  C06_import_as_unless_fully_matched wEx psEx factsEx _ (s "utilities") (s "u") (s "f") [.func (s "f") true] _ 0
+    (by decide) (by decide) rfl (by decide) (by decide)
+    (by intro o h; simp only [factsEx, List.mem_singleton, Option.some.injEq] at h; subst h; decide)
+    (by decide) (by decide) (by decide) (by decide) (by decide) (by decide) (.inl rfl)
+
+example : resolveImport wEx 1 ⟨s "load", s "util.load"⟩ = .none_ .ignored :=
+  C06_fully_matched_not_followed wEx psEx factsEx (s "util") _ 0 rfl (by decide) (by decide) (by decide) (by decide)
+
+example : isInImportBlacklist ([s "util", s "pkg.x"].map lits) (s "pkg.xy") { inStdlib := false, origins := [none] } = false :=
+  C06_literal_near_miss_not_excluded [s "util", s "pkg.x"] (s "pkg.x") [] (s "y") _ (by decide) (by decide)
+    (by intro o h; simp at h)
 
 end Rattr.C06
 
